@@ -370,7 +370,7 @@ Section Facts.
     let q := mk_bcall "select_mailbox" m [] [] (name =? "EXAMINE") in
     (forall ro b1, bk b q = (AnsOk ro false, b1) ->
        o_cond o = OK /\ b' = b1 /\ c_phase c' = Selected u m ro /\ c_bad c' = 0%N) /\
-    (forall b1, bk b q = (AnsNo, b1) ->
+    (forall x b1, bk b q = (x, b1) -> failure_answer x = true ->
        o_cond o = NO /\ b' = b1 /\ c_phase c' = Authd u).
   Proof.
     intros Hname Hl (Hc & Hg & Hh) Hna Hs Hn Hu.
@@ -387,8 +387,9 @@ Section Facts.
        change ("SELECT" =? "SELECT") with true; cbn [orb];
        rewrite Eph; cbn [mailbox_arg];
        destruct (bk b (mk_bcall "select_mailbox" m [] [] (name =? "EXAMINE"))) as [x b1] eqn:Eb;
-       destruct x as [ro' gone| | | | | |]; [destruct gone|..]; cbn;
-       (split; intros; match goal with H : (_, _) = (_, _) |- _ => inversion H; subst end; auto)).
+       destruct x as [ro' gone| | | | | | |]; [destruct gone|..]; cbn;
+       (split; intros; match goal with H : (_, _) = (_, _) |- _ => inversion H; subst end;
+        try discriminate; auto)).
   Qed.
 
 End Facts.
@@ -451,7 +452,7 @@ Lemma select_ok_fail :
     let q := mk_bcall "select_mailbox" m [] [] (name =? "EXAMINE") in
     (forall ro b1, bk b q = (AnsOk ro false, b1) ->
        o_cond o = OK /\ b' = b1 /\ c_phase c' = Selected u m ro /\ c_bad c' = 0%N) /\
-    (forall b1, bk b q = (AnsNo, b1) ->
+    (forall x b1, bk b q = (x, b1) -> failure_answer x = true ->
        o_cond o = NO /\ b' = b1 /\ c_phase c' = Authd u).
 Proof.
   intros B bk cfg c b name m u Hname Hu.
@@ -505,17 +506,18 @@ Qed.
 
 Lemma select_fail_tbl :
   forall (B : Type) (bk : B -> bcall -> answer * B) (cfg : config) (c : conn) (b : B)
-         (name : string) (m u : bytes) (b1 : B),
+         (name : string) (m u : bytes) (x : answer) (b1 : B),
     name = "SELECT" \/ name = "EXAMINE" ->
     session_user (c_phase c) = Some u ->
-    bk b (mk_bcall "select_mailbox" m [] [] (name =? "EXAMINE")) = (AnsNo, b1) ->
+    bk b (mk_bcall "select_mailbox" m [] [] (name =? "EXAMINE")) = (x, b1) ->
+    failure_answer x = true ->
     let '(c', b', o) := conn_step B bk cmd_table cfg c b (CCmd name (AMailbox m)) in
     o_cond o = NO /\ b' = b1 /\ c_phase c' = Authd u.
 Proof.
-  intros B bk cfg c b name m u b1 Hn Hu Hb.
+  intros B bk cfg c b name m u x b1 Hn Hu Hb Hx.
   pose proof (select_ok_fail B bk cfg c b name m u Hn Hu) as H.
   destruct (conn_step B bk cmd_table cfg c b (CCmd name (AMailbox m))) as [[c' b'] o].
-  destruct H as [_ H]. exact (H b1 Hb).
+  destruct H as [_ H]. exact (H x b1 Hb Hx).
 Qed.
 
 (* the row the code produced before AUTHENTICATE was gated: with it the gate
